@@ -353,6 +353,11 @@ def execute_multi(kind, progs, policy, max_steps):
                 order = [key(m) for m in world.poplogs[d]] + [key(m) for m in world.real[d]]
                 for t in range(len(progs)):
                     for e in range(3):
+                        if d == 0 and e == 0:
+                            # a message sent on the MultiPort exists once per sub-port; swept back into the MultiPort's own deque the copies
+                            # of the several sub-ports stand one sub-port after the other (and some may have been taken from a sub-port
+                            # directly): their order is that of each sub-port's deque, checked there (d = 1, 2), not of deque 0
+                            continue
                         mine_ = [key(c) for tt, pidx, _, c in sent if tt == t and pidx == e]
                         seen = [k for k in order if k in mine_]
                         first = []
